@@ -25,5 +25,7 @@ def run(chk):
             found, dis = f.run_programs(chk, progs)
             f.report_found(chk, found, dis, prop="C02", keyprefix="funcs")
     _compose.finish(chk)
+    from props import C20 as _c20
+    _c20.run_eq_leg(chk, lambda name: "ApplyNode" in name or "ApplyTensor" in name)    # the C wrappers of every function (Node and Tensor forms)
     chk.trusted += ["'within a few float32 ulps' is measured by the correspondence run, not proved: theorems are over exact fields (why the stabilised forms cannot overflow, and that they equal the definitions over the reals)",
                     "loop kernels are hand-modelled (Model/KernelsMove.lean, Model/KernelsArith.lean) and tied to both backends by the correspondence run; elementwise formulas are translated from the sources (translate/elementwise.py)"]
